@@ -19,13 +19,19 @@
 (*   rd  reader          cp  compactor                                     *)
 (* (a router exists exactly when clustering is on, and without clustering  *)
 (* the role is standalone: cmd/arc/main.go, coordinator.go NewCoordinator) *)
-(* Health is what the registries report (Node.State = healthy); it only    *)
-(* matters for target selection.                                           *)
+(* A peer's status is one of: registry-healthy and reachable, registry-     *)
+(* healthy but dead at transport level (crashed after the last health      *)
+(* check: connection refused), registry-unhealthy.  Registry health only   *)
+(* matters for target selection, reachability for the forward attempt.     *)
+(* The entry node is reachable (the client talks to it).                   *)
 (*                                                                         *)
 (* One action per decision point as the code is written:                   *)
 (*   Decide      decideForward (router nil / CanRouteLocally / header)     *)
 (*   RouteWrite  primary writer, else any healthy writer, else 503         *)
 (*   RouteQuery  healthy readers, else healthy writers, else 503           *)
+(*   Attempt     forwardRequest's loop: doForward to the chosen node; on a *)
+(*               transport error retry (cfg.Retries times) -- as written   *)
+(*               against the SAME node -- then 502                         *)
 (*   (forwarding = BuildHTTPRequest strips the client's marker, doForward  *)
 (*    sets X-Arc-Forwarded-By to the local node id)                        *)
 (* Endpoints in NoPrologue are handlers that have no routing prologue in   *)
@@ -37,13 +43,19 @@ CONSTANTS MaxNodes,       \* 1..4
           WriteEps,       \* set of write endpoint names
           QueryEps,       \* set of query endpoint names
           NoPrologue,     \* subset of endpoints whose handler has no routing prologue
+          Retries,        \* RouterConfig.Retries (attempts = Retries + 1)
+          RetrySwitchesPeer, \* FALSE = as written: every retry goes to the same node; TRUE = negative control:
+                          \* a retry moves to another healthy non-compactor peer whatever the request kind
           Emit            \* TRUE: print one TRACE line per terminal state
 
 KindSeq == <<"nr", "sa", "wp", "ws", "wn", "rd", "cp">>
-NTypes  == 2 * Len(KindSeq)
+NTypes  == 3 * Len(KindSeq)
 Types   == 1..NTypes
-KindOf(t)  == KindSeq[((t - 1) \div 2) + 1]
-Healthy(t) == (t % 2) = 1
+KindOf(t)  == KindSeq[((t - 1) \div 3) + 1]
+Stat(t)    == (t - 1) % 3              \* 0 healthy+reachable, 1 healthy+dead, 2 unhealthy
+Healthy(t) == Stat(t) # 2              \* what the registries report
+Reach(t)   == Stat(t) # 1              \* does a connection to its API address succeed
+EntryTypes == { t \in Types : Stat(t) = 0 }
 
 HasRouter(k) == k # "nr"
 IsWriterK(k) == k \in {"wp", "ws", "wn"}
@@ -55,7 +67,7 @@ Hdrs == {"none", "junk", "self", "peer"}   \* client-supplied X-Arc-Forwarded-By
 Eps  == WriteEps \cup QueryEps
 
 SortedPeers(k) == { s \in [1..k -> Types] : \A i \in 1..k, j \in 1..k : i < j => s[i] <= s[j] }
-Configs == UNION { { <<e>> \o p : e \in Types, p \in SortedPeers(k) } : k \in 0..(MaxNodes - 1) }
+Configs == UNION { { <<e>> \o p : e \in EntryTypes, p \in SortedPeers(k) } : k \in 0..(MaxNodes - 1) }
 
 VARIABLES cfg,      \* Seq(Types); node 1 is the entry node
           ep, hdr,  \* the request
@@ -64,9 +76,11 @@ VARIABLES cfg,      \* Seq(Types); node 1 is the entry node
           phase,    \* "recv" | "route" | "done"
           hops,     \* number of forwards so far
           proc,     \* node that processed the request locally (0 = none)
-          outcome   \* "pending" | "local" | "loop508" | "none503"
+          outcome,  \* "pending" | "local" | "loop508" | "none503" | "fail502"
+          tgt,      \* node the router is currently trying to forward to (0 = none)
+          tries     \* failed attempts so far
 
-vars == <<cfg, ep, hdr, at, marked, phase, hops, proc, outcome>>
+vars == <<cfg, ep, hdr, at, marked, phase, hops, proc, outcome, tgt, tries>>
 
 N        == Len(cfg)
 Kind(i)  == KindOf(cfg[i])
@@ -78,10 +92,10 @@ Init == /\ cfg \in Configs
         /\ ep \in Eps
         /\ hdr \in Hdrs
         /\ at = 1 /\ marked = (hdr # "none")
-        /\ phase = "recv" /\ hops = 0 /\ proc = 0 /\ outcome = "pending"
+        /\ phase = "recv" /\ hops = 0 /\ proc = 0 /\ outcome = "pending" /\ tgt = 0 /\ tries = 0
 
 Finish(o, p) == /\ phase' = "done" /\ outcome' = o /\ proc' = p
-                /\ UNCHANGED <<cfg, ep, hdr, at, marked, hops>>
+                /\ UNCHANGED <<cfg, ep, hdr, at, marked, hops, tgt, tries>>
 
 \* decideForward + the handler's switch
 Decide ==
@@ -90,10 +104,28 @@ Decide ==
        ELSE IF Capable(at) THEN Finish("local", at)                              \* CanRouteLocally: header not consulted
        ELSE IF marked THEN Finish("loop508", 0)                                  \* ForwardAlreadyForwarded
        ELSE /\ phase' = "route"                                                  \* ForwardToPeer
-            /\ UNCHANGED <<cfg, ep, hdr, at, marked, hops, proc, outcome>>
+            /\ UNCHANGED <<cfg, ep, hdr, at, marked, hops, proc, outcome, tgt, tries>>
 
-Forward(t) == /\ at' = t /\ marked' = TRUE /\ hops' = hops + 1 /\ phase' = "recv"
-              /\ UNCHANGED <<cfg, ep, hdr, proc, outcome>>
+\* forwardRequest(node): start the attempt loop against the selected node
+Forward(t) == /\ tgt' = t /\ tries' = 0 /\ phase' = "fwd"
+              /\ UNCHANGED <<cfg, ep, hdr, at, marked, hops, proc, outcome>>
+
+\* where the next attempt goes after a failed one
+NextTarget(failed) ==
+    IF ~RetrySwitchesPeer THEN {failed}
+    ELSE LET c == { i \in 1..Len(cfg) : i # failed /\ i # at /\ Healthy(cfg[i]) /\ KindOf(cfg[i]) # "cp" }
+         IN IF c = {} THEN {failed} ELSE c
+
+\* one doForward attempt
+Attempt ==
+    /\ phase = "fwd"
+    /\ IF Reach(cfg[tgt])
+         THEN /\ at' = tgt /\ marked' = TRUE /\ hops' = hops + 1 /\ phase' = "recv" /\ tgt' = 0
+              /\ UNCHANGED <<cfg, ep, hdr, proc, outcome, tries>>
+         ELSE IF tries < Retries
+         THEN /\ tries' = tries + 1 /\ tgt' \in NextTarget(tgt)
+              /\ UNCHANGED <<cfg, ep, hdr, at, marked, hops, phase, proc, outcome>>
+         ELSE Finish("fail502", 0)                                \* ErrRoutingFailed
 
 Primaries == { i \in 1..N : Kind(i) = "wp" /\ Up(i) }      \* Registry.GetPrimaryWriter
 Writers   == { i \in 1..N : IsWriterK(Kind(i)) /\ Up(i) }  \* Registry.GetWriters
@@ -116,7 +148,7 @@ RouteQuery ==
 
 Done == phase = "done" /\ UNCHANGED vars
 
-Next == Decide \/ RouteWrite \/ RouteQuery \/ Done
+Next == Decide \/ RouteWrite \/ RouteQuery \/ Attempt \/ Done
 Spec == Init /\ [][Next]_vars
 
 -----------------------------------------------------------------------------
@@ -133,8 +165,8 @@ Safety == AtMostOneForward /\ ProcessedByCapable /\ ServedWhereReceived /\ Forwa
           /\ ForwardedIsServed /\ SpoofedMarker
 
 TypeOK == /\ at \in 1..N /\ proc \in 0..N /\ hops \in 0..2
-          /\ phase \in {"recv", "route", "done"}
-          /\ outcome \in {"pending", "local", "loop508", "none503"}
+          /\ phase \in {"recv", "route", "fwd", "done"} /\ tgt \in 0..N /\ tries \in 0..Retries
+          /\ outcome \in {"pending", "local", "loop508", "none503", "fail502"}
 
 EmitInv ==
     (Emit /\ phase = "done") =>
